@@ -3,21 +3,27 @@ import itertools
 
 ID = "C04"
 LEVEL = "proof"
-HARNESSES = [{"name": "main", "src": "harness.cpp", "flags": ["-O1", "-DTETL_ENABLE_CONTRACT_CHECKS=1"]}]
+HARNESSES = [{"name": "main", "src": "harness.cpp", "flags": ["-O0", "-DTETL_ENABLE_CONTRACT_CHECKS=1"]},
+             {"name": "O2", "src": "harness.cpp", "flags": ["-O2", "-DTETL_ENABLE_CONTRACT_CHECKS=1"], "thorough_only": True}]
 
 NPOS = 2**64 - 1
 FAMS = ["find", "rfind", "ffo", "ffno", "flo", "flno"]
 # instantiations compiled into the harness
-CAPS = {"c": [0, 1, 2, 3, 7, 15, 16, 31, 255, 256], "w": [1, 3, 15, 16], "u": [3, 7, 16], "s": [15], "b": [16]}
+CAPS = {"c": [0, 1, 2, 3, 7, 15, 16, 31, 254, 255, 256], "w": [0, 3, 15, 16, 256], "u": [0, 3, 15, 16],
+        "s": [0, 3, 15, 16], "b": [0, 3, 15, 16]}
 ALPHA = {"c": [97, 98, -128, 0], "w": [97, 98, -128, 0], "u": [97, 98, 0x80000005, 0], "s": [97, 98, 0x8000, 0],
          "b": [97, 98, 0x80, 0]}
 
 RULE = ("histories: (i) exhaustive single operations (clear, push_back, pop_back, append x3, insert x2, erase x2, "
         "resize, assign x2, substr, swap) from every content state of length <= 3 over {a, b, NUL} at capacities "
-        "0,1,2,3 with every (pos,count) in {0..len+1, npos}^2; (ii) seeded random histories (length <= 30, "
-        "capacity-aware with deliberate overflows) on capacities 0,1,7,15,16,31,255,256 (char) and the compiled "
-        "wchar_t/char32_t/char16_t/char8_t instantiations; after EVERY step size(), data()[size()] and the "
-        "contents are compared. queries: the six search members with explicit and default position, compare, "
+        "0,1,2,3 with every (pos,count) in {0..len+1, npos}^2, and the remaining overloads (append/assign/insert "
+        "with a C string, another string, a substring of another string or view, operator+= / operator+, "
+        "erase(position), resize(n), etl::erase / erase_if) from every content of length <= 2; (ii) seeded random "
+        "histories (length <= 30, capacity-aware with deliberate overflows) on capacities 0,1,7,15,16,31,255,256 "
+        "(char) and the compiled wchar_t/char32_t/char16_t/char8_t instantiations; after EVERY step size(), "
+        "data()[size()], the contents and the returned iterator/count are compared; for a sample of them (capacity <= 31) "
+        "additionally the RAW storage (all Capacity+1 characters incl. the tiny layout's size byte and the stale "
+        "characters behind size()) is compared with the model's array after every step (histb). queries: the six search members with explicit and default position, compare, "
         "compare(pos1,n1,str,pos2,n2), copy, replace on every content of length <= 3 x needle of length <= 2 x "
         "pos in {0..len+1, npos}; compare/compare5/search again on every pair of contents of length <= 2 over the full "
         "alphabet {a, b, top-bit character (negative for char/wchar_t), NUL} for all five character types. non-trivial = distinct case whose impl leg contains a non-empty state")
@@ -63,7 +69,7 @@ def single_ops(l, al):
         for k in range(0, n + 2):
             if p != NPOS:
                 ops.append(f"erng {p} {k}")
-    for p in range(0, n + 1):      # insert beyond size() is undefined behaviour (no check in the library)
+    for p in list(range(0, n + 2)) + [NPOS]:      # index > size(): TETL_PRECONDITION(index <= size())
         for k in range(0, 3):
             ops.append(f"ip {p} {L([b, a])} {k}")
             ops.append(f"if {p} {k} {b}")
@@ -79,7 +85,7 @@ def gen_exhaustive(ck, caps, maxlen, out):
                 out.append(hist(ck, cap, pre + [o]))
 
 
-def gen_queries(ck, caps, out, rng, light=False):
+def gen_queries(ck, caps, out, rng, light=False, p5=0.3):
     al = ALPHA[ck][:2]
     for cap in caps:
         C = strings(al, min(3, cap))
@@ -98,14 +104,19 @@ def gen_queries(ck, caps, out, rng, light=False):
                         for n1 in ps:
                             for p2 in pn:
                                 for n2 in pn:
-                                    if rng.random() < 0.3:
+                                    if rng.random() < p5:
                                         out.append(f"cmp_5 {ck} {cap} {L(l)} {p1} {n1} {L(n)} {p2} {n2}")
                 for p in ps:
                     for k in ps:
                         if len(n) == 0:
                             out.append(f"copy_m {ck} {cap} {L(l)} {k} {p}")
-                        if p != NPOS and k != NPOS:
-                            out.append(f"replace {ck} {cap} {L(l)} {p} {k} {L(n)}")
+                        out.append(f"replace {ck} {cap} {L(l)} {p} {k} {L(n)}")
+                        if light:
+                            continue
+                        out.append(f"replacez {ck} {cap} {L(l)} {p} {k} {L(n)}")
+                        out.append(f"replacep {ck} {cap} {L(l)} {p} {k} {L(n + [al[1]])} {rng.randint(0, len(n) + 1)}")
+                        for p2 in list(range(0, len(n) + 1)):
+                            out.append(f"replace5 {ck} {cap} {L(l)} {p} {k} {L(n)} {p2} {rng.choice([0, 1, 2, NPOS])}")
 
 
 def gen_queries_hi(ck, cap, out, rng):
@@ -125,12 +136,105 @@ def gen_queries_hi(ck, cap, out, rng):
                 out.append(f"q_{fam} {ck} {cap} {L(l)} {L(n)} {p}")
 
 
+def gen_overloads(ck, caps, out, rng, frac=1.0):
+    """the (s, pos, count) / (s, pos) / (ch, pos) overloads of the six search families, the eight compare
+    overloads, starts_with / ends_with / contains, the 18 relational operators, operator[] / front / back /
+    empty / full / size / length / capacity / max_size / end() - begin(), on every content of length <= 3 over
+    {a, b} (+ samples with NUL and a top-bit character) with pos in {0..len+1, npos}"""
+    al2 = ALPHA[ck][:2]
+    al4 = ALPHA[ck]
+    for cap in caps:
+        C = strings(al2, min(3, cap)) + [x for x in strings(al4, min(2, cap)) if any(c not in al2 for c in x)]
+        N = strings(al2, 2) + [[al4[2]], [al4[3]], [al4[0], al4[3], al4[1]], [al4[2], al4[0]]]
+        for l in C:
+            ps = list(range(0, len(l) + 2)) + [NPOS]
+            out.append(f"ef {ck} {cap} {L(l)}")
+            out.append(f"fb {ck} {cap} {L(l)}")
+            for i in ps:
+                out.append(f"idx {ck} {cap} {L(l)} {i}")
+            for c in al4:
+                out.append(f"pfx_c {ck} {cap} {L(l)} {c}")
+                for fam in FAMS:
+                    for p in ps:
+                        out.append(f"sc_{fam} {ck} {cap} {L(l)} {c} {p}")
+            for n in N:
+                out.append(f"pfx_v {ck} {cap} {L(l)} {L(n)}")
+                out.append(f"pfx_z {ck} {cap} {L(l)} {L(n)}")
+                out.append(f"cz {ck} {cap} {L(l)} {L(n)}")
+                out.append(f"cv {ck} {cap} {L(l)} {L(n)}")
+                out.append(f"rel_sz {ck} {cap} {L(l)} {L(n)}")
+                out.append(f"rel_zs {ck} {cap} {L(l)} {L(n)}")
+                if len(n) <= cap:
+                    out.append(f"rel_ss {ck} {cap} {L(l)} {L(n)}")
+                for fam in FAMS:
+                    for p in ps:
+                        out.append(f"sz_{fam} {ck} {cap} {L(l)} {L(n)} {p}")
+                        out.append(f"sp_{fam} {ck} {cap} {L(l)} {L(n + [al2[0]])} {p} {rng.randint(0, len(n) + 1)}")
+                pn = list(range(0, len(n) + 2)) + [NPOS]
+                for p1 in ps:
+                    for n1 in ps:
+                        if len(n) <= cap and rng.random() < frac:
+                            out.append(f"c3 {ck} {cap} {L(l)} {p1} {n1} {L(n)}")
+                        if rng.random() < frac:
+                            out.append(f"c3z {ck} {cap} {L(l)} {p1} {n1} {L(n)}")
+                        if rng.random() < frac:
+                            out.append(f"c3v {ck} {cap} {L(l)} {p1} {n1} {L(n)}")
+                        if rng.random() < frac:
+                            out.append(f"c4p {ck} {cap} {L(l)} {p1} {n1} {L(n + [al2[1]])} {rng.randint(0, len(n) + 1)}")
+                        if rng.random() < frac:
+                            out.append(f"c5v {ck} {cap} {L(l)} {p1} {n1} {L(n)} {rng.choice(pn)} {rng.choice(pn)}")
+
+
+def single_ops2(l, al, cap):
+    """the remaining mutator overloads on a string with contents l"""
+    n = len(l)
+    a, b = al[0], al[1]
+    pcs = list(range(0, n + 2)) + [NPOS]
+    srcs = [[], [b], [a, b], [b, 0, a], [a, b, a, b]]
+    ops = [f"plc {a}", f"pec {b}", "rs0 0", f"rs0 {n + 1}", f"rs0 {NPOS}"]
+    for src in srcs:
+        for o in ["acs", "pez", "plz", "zcs", "zeq", "ast", "pes", "pls", "av", "zv", "kv", "kr", "kz"]:
+            ops.append(f"{o} {L(src)}")
+        ops.append(f"plzs {L([a, b])} {L(src)}")
+        ops.append(f"plzs {L([])} {L(src)}")
+        ops.append(f"plcs {b} {L(src)}")
+        ss = list(range(0, len(src) + 2)) + [NPOS]
+        for p in ss:
+            for k in [0, 1, 2, NPOS]:
+                for o in ["ass", "avs", "zss", "zvs", "kss", "kvs"]:
+                    ops.append(f"{o} {L(src)} {p} {k}")
+            ops.append(f"ks {L(src)} {p}")
+        for i in range(0, n + 2):
+            for o in ["ics", "ist", "iv"]:
+                ops.append(f"{o} {i} {L(src)}")
+            for p in ss:
+                for k in [0, 1, NPOS]:
+                    ops.append(f"iss {i} {L(src)} {p} {k}")
+                    ops.append(f"ivs {i} {L(src)} {p} {k}")
+    for p in pcs:
+        if p != NPOS:
+            ops.append(f"erp {p}")
+    for c in [a, b, 0]:
+        ops.append(f"fer {c}")
+    ops += ["fei 0", "fei 1"]
+    return ops
+
+
+def gen_exhaustive2(ck, caps, maxlen, out):
+    al = ALPHA[ck]
+    for cap in caps:
+        for l in strings([al[0], al[1]], min(maxlen, cap)):
+            pre = [f"asp {L(l)} {len(l)}"]
+            for o in single_ops2(l, al, cap):
+                out.append(hist(ck, cap, pre + [o]))
+
+
 def rchars(rng, ck, n):
     al = ALPHA[ck]
     return [rng.choice(al if rng.random() < 0.3 else al[:2]) for _ in range(n)]
 
 
-def gen_history(rng, ck, cap):
+def gen_history(rng, ck, cap, extra=False):
     """capacity-aware random history: mostly valid, sometimes overflowing / out of range"""
     n = 0
     ops = []
@@ -138,6 +242,8 @@ def gen_history(rng, ck, cap):
         room = cap - n
         wild = rng.random() < 0.06
         k = rng.random()
+        if extra and k < 0.5:
+            k = 0.99
         if k < 0.12:
             ops.append(f"pb {rchars(rng, ck, 1)[0]}")
             if room > 0 or wild:
@@ -171,13 +277,19 @@ def gen_history(rng, ck, cap):
             c = rng.randint(0, len(src))
             if not wild:
                 c = min(c, room)
-            ops.append(f"ip {rng.randint(0, n)} {L(src)} {c}")
+            idx = rng.randint(0, n + (1 if wild else 0))
+            ops.append(f"ip {idx} {L(src)} {c}")
+            if idx > n:
+                break
             n = min(cap, n + c)
         elif k < 0.62:
             c = rng.randint(0, 3)
             if not wild:
                 c = min(c, max(room, 0))
-            ops.append(f"if {rng.randint(0, n)} {c} {rchars(rng, ck, 1)[0]}")
+            idx = rng.randint(0, n + (1 if wild else 0))
+            ops.append(f"if {idx} {c} {rchars(rng, ck, 1)[0]}")
+            if idx > n:
+                break
             n = min(cap, n + c)
         elif k < 0.72:
             p = rng.randint(0, n + (1 if wild else 0))
@@ -213,9 +325,97 @@ def gen_history(rng, ck, cap):
             src = rchars(rng, ck, rng.randint(0, min(cap, 6)))
             ops.append(f"sw {L(src)}")
             n = len(src)
-        else:
+        elif k < 0.985 or not extra:
             ops.append("clear")
             n = 0
+        else:
+            # one of the remaining overloads (arguments chosen to stay valid most of the time)
+            src = rchars(rng, ck, rng.randint(0, min(4, max(room, 0)) if not wild else 4))
+            src_nz = [c for c in src if c != 0]
+            o = rng.choice(["acs", "pez", "plz", "ast", "pes", "pls", "av", "ass", "avs", "ics", "ist", "iv", "iss", "ivs",
+                            "erp", "plc", "pec", "rs0", "zcs", "zeq", "zv", "zss", "zvs", "fer", "fei", "kz", "kv", "kr",
+                            "kss", "kvs", "ks", "plzs", "plcs"])
+            if o in ("acs", "pez", "plz"):
+                ops.append(f"{o} {L(src)}")
+                n = min(cap, n + (src.index(0) if 0 in src else len(src)))
+            elif o in ("ast", "pes", "pls"):
+                ops.append(f"{o} {L(src)}")
+                if len(src) > room:
+                    break
+                n += len(src)
+            elif o == "av":
+                ops.append(f"{o} {L(src)}")
+                n = min(cap, n + len(src))
+            elif o in ("ass", "avs"):
+                p = rng.randint(0, len(src) + (1 if wild else 0))
+                c = rng.choice([0, 1, 2, NPOS])
+                ops.append(f"{o} {L(src)} {p} {c}")
+                if p > len(src) and o == "avs":
+                    break
+                add = 0 if p > len(src) else min(c, len(src) - p)
+                if o == "ass" and add > room:
+                    break
+                n = min(cap, n + add)
+            elif o in ("ics", "ist", "iv"):
+                ops.append(f"{o} {rng.randint(0, n)} {L(src)}")
+                n = min(cap, n + (src.index(0) if (0 in src and o == "ics") else len(src)))
+            elif o in ("iss", "ivs"):
+                p = rng.randint(0, len(src) + (1 if wild else 0))
+                c = rng.choice([0, 1, 2, NPOS])
+                ops.append(f"{o} {rng.randint(0, n)} {L(src)} {p} {c}")
+                if p > len(src):
+                    break
+                n = min(cap, n + min(c, len(src) - p))
+            elif o == "fer":
+                ops.append(f"fer {rchars(rng, ck, 1)[0]}")
+                break   # the generator does not track contents; the history ends here
+            elif o == "fei":
+                ops.append(f"fei {rng.randint(0, 1)}")
+                break   # the generator does not track contents; the history ends here
+            elif o == "erp":
+                p = rng.randint(0, n)
+                ops.append(f"erp {p}")
+                if p >= n:
+                    break
+                n -= 1
+            elif o in ("plc", "pec"):
+                ops.append(f"{o} {rchars(rng, ck, 1)[0]}")
+                n = min(cap, n + 1)
+            elif o == "rs0":
+                c = rng.randint(0, min(cap, n + 3))
+                ops.append(f"rs0 {c}")
+                n = c
+            elif o in ("zcs", "zeq", "zv", "kz", "kv", "kr"):
+                src2 = rchars(rng, ck, rng.randint(0, min(cap, 5)))
+                ops.append(f"{o} {L(src2)}")
+                n = (src2.index(0) if (0 in src2 and o in ("zcs", "zeq", "kz")) else len(src2))
+            elif o in ("plzs", "plcs"):
+                src2 = rchars(rng, ck, rng.randint(0, min(cap, 3)))
+                if o == "plzs":
+                    lhs = [c for c in rchars(rng, ck, rng.randint(0, min(max(cap - len(src2), 0), 3))) if c != 0]
+                    ops.append(f"plzs {L(lhs)} {L(src2)}")
+                    n = len(lhs) + len(src2)
+                else:
+                    ops.append(f"plcs {rchars(rng, ck, 1)[0]} {L(src2)}")
+                    n = 1 + len(src2)
+                if n > cap:
+                    break
+            elif o == "ks":
+                src2 = rchars(rng, ck, rng.randint(0, min(cap, 5)))
+                p = rng.randint(0, len(src2) + (1 if wild else 0))
+                ops.append(f"ks {L(src2)} {p}")
+                n = 0 if p > len(src2) else len(src2) - p
+            else:
+                src2 = rchars(rng, ck, rng.randint(0, min(cap, 5)))
+                p = rng.randint(0, len(src2) + (1 if wild else 0))
+                c = rng.choice([0, 1, 3, NPOS])
+                ops.append(f"{o} {L(src2)} {p} {c}")
+                if p > len(src2):
+                    if o in ("zvs", "kvs"):
+                        break
+                    n = 0
+                else:
+                    n = min(c, len(src2) - p)
     return hist(ck, cap, ops)
 
 
@@ -223,26 +423,59 @@ def gen(tier, rng):
     out = []
     quick = tier != "thorough"
     gen_exhaustive("c", [0, 1, 2, 3], 3, out)
-    gen_exhaustive("w", [1, 3], 2 if quick else 3, out)
+    gen_exhaustive("w", [3], 2 if quick else 3, out)
     gen_exhaustive("u", [3], 2 if quick else 3, out)
-    gen_queries("c", [3, 7, 16], out, rng)
+    gen_queries("c", [3, 7, 16], out, rng, p5=0.15 if quick else 0.3)
     gen_queries("c", [0, 1, 15], out, rng, light=True)
     gen_queries("w", [3, 16], out, rng, light=True)
     gen_queries("u", [3, 16], out, rng, light=True)
     for ck, cap in [("c", 3), ("c", 16), ("w", 3), ("u", 3), ("s", 15), ("b", 16)]:
         gen_queries_hi(ck, cap, out, rng)
+    fr = 0.3 if quick else 1.0
+    gen_overloads("c", [3, 16], out, rng, fr)
+    gen_overloads("c", [0, 1], out, rng, fr)
+    gen_overloads("w", [3], out, rng, fr)
+    if not quick:
+        gen_overloads("c", [7, 15, 255], out, rng)
+        gen_overloads("u", [3, 16], out, rng)
+        gen_overloads("s", [15], out, rng)
+        gen_overloads("b", [16], out, rng)
+    gen_exhaustive2("c", [0, 1, 2, 3], 2, out)
+    gen_exhaustive2("w", [3], 1 if quick else 2, out)
+    gen_exhaustive2("c", [16], 1 if quick else 2, out)
+    gen_exhaustive2("s", [3], 1 if quick else 2, out)
+    gen_exhaustive2("b", [3], 1 if quick else 2, out)
+    gen_exhaustive2("u", [0], 0, out)
+    gen_exhaustive("s", [0, 3], 1 if quick else 3, out)
+    gen_exhaustive("b", [0, 3], 1 if quick else 3, out)
+    gen_exhaustive("w", [0], 0, out)
     nh = 4000 if quick else 400000
     for ck, caps in CAPS.items():
         share = {"c": 0.6, "w": 0.15, "u": 0.15, "s": 0.05, "b": 0.05}[ck]
         for _ in range(int(nh * share)):
             out.append(gen_history(rng, ck, rng.choice(caps)))
+        for _ in range(int(nh * share * 0.5)):
+            out.append(gen_history(rng, ck, rng.choice(caps), extra=True))
     # full strings at both sides of the layout boundary: fill exactly to capacity, then operate
-    for cap in [1, 7, 15, 16, 31, 255, 256]:
+    for cap in [1, 7, 15, 16, 31, 254, 255, 256]:
         for tail in ["pop", "clear", "er 0 18446744073709551615", f"er {cap - 1} 1", "sub 0 18446744073709551615",
                      f"sw {L([98])}", f"rs {cap} 99", f"rs {cap - 1} 99", "pb 98", "af 1 98", f"if 0 1 98",
                      f"erng 0 {cap}", f"sub {cap} 1", f"ip {cap} {L([97])} 0"]:
             out.append(hist("c", cap, [f"af {cap} 97", tail, "af 1 100"]))
+    add_raw(out, rng, 0.2 if quick else 0.5)
     return out
+
+
+def add_raw(out, rng, frac):
+    """twin cases 'histb': the same history, the impl leg prints the raw Capacity+1 characters of the object after
+    every step and is compared with the model's array (layout, size byte, stale characters behind size())"""
+    extra = []
+    for c in out:
+        if c.startswith("hist ") and rng.random() < frac:
+            t = c.split(" ", 3)
+            if int(t[2]) <= 31:
+                extra.append("histb " + c[5:])
+    out += extra
 
 
 def nontrivial(case, impl):
